@@ -205,13 +205,13 @@ inline void gen_xsd_facet(std::vector<GCase>& out, bool thorough) {
         Ns ns{t == 0};
         for (int bi = 0; bi < NBASES; bi++) {
             const BaseT& b = BASES[bi];
-            if (!thorough && t == 1 && bi % 4 != 0) continue;
+            if (!thorough && t == 1 && bi % 6 != 0) continue;
             std::vector<FacetSpec> fs = facets_for(b);
             std::vector<std::string> vals = {b.v1, b.v2, b.v3, std::string("  ") + b.v1 + " ", std::string(b.v2) + "\t", "#bad#", ""};
             bool isId = strcmp(b.name, "ID") == 0;
             for (size_t fi = 0; fi < fs.size(); fi++) for (int fixed = 0; fixed < 2; fixed++) {
                 if (fixed && fs[fi].xml.find("@F") == std::string::npos) continue;
-                if (!thorough && fixed && (bi + fi) % 3 != 0) continue;
+                if (!thorough && fixed && (bi + fi) % 5 != 0) continue;
                 std::string body = XSD_R_EF;
                 body += "<xs:simpleType name='T'><xs:restriction base='xs:" + std::string(b.name) + "'>" + rep(fs[fi].xml, "@F", fixed ? " fixed='true'" : "") + "</xs:restriction></xs:simpleType>\n";
                 GCase g = xsd_case("xsd-facet", std::string(b.name) + "/" + fs[fi].label + (fixed ? "/fixed" : ""), ns, body);
